@@ -596,6 +596,21 @@ def md_meta(path: str):
         return (False, [], [])
 
 
+_PROJ_COPY_ABS = None
+
+
+def proj_copy_is_absolute() -> bool:
+    """does `ProjectSettings.normalise_paths` turn a project-wide `copy_subdir` name into an absolute path?"""
+    global _PROJ_COPY_ABS
+    if _PROJ_COPY_ABS is None:
+        common.import_ford()
+        from ford.settings import ProjectSettings
+        st = ProjectSettings(copy_subdir=["zz"])
+        st.normalise_paths("/nonexistent-ford-verif")
+        _PROJ_COPY_ABS = os.path.isabs(str(st.copy_subdir[0]))
+    return _PROJ_COPY_ABS
+
+
 def page_input(root: Path, page_dir: str, proj_copy: list[str], skip: list[str]) -> tuple[list[str], list]:
     """Fields describing everything below `root` (physical paths; sub-trees in `skip` left out) as the model's
     `PageIn`: directories with their sorted listing, regular files (with metadata when they can be pages),
@@ -1039,7 +1054,10 @@ def run_scenario(scn: dict, base: Path, tables: dict, fault_at: int | None = Non
     pin, orders, page_dir = None, [], None
     if "page_dir" in lay["opts"]:
         page_dir = os.path.realpath(lay["proj"] / lay["opts"]["page_dir"])
-        proj_copy = [os.path.realpath(lay["proj"] / x) for x in lay["opts"].get("copy_subdir", [])]
+        # what the settings hand to the page tree for the project-wide `copy_subdir`: absolute paths (as found:
+        # normalise_paths treats it like src_dir) or the names as written (repair b049850) - decided from the code
+        proj_copy = [os.path.realpath(lay["proj"] / x) if proj_copy_is_absolute() else str(x)
+                     for x in lay["opts"].get("copy_subdir", [])]
         # inputs do not change between the runs of one sandbox (if a run changes them the oracle objects)
         cache = reuse.setdefault("pin_cache", {}) if reuse is not None else {}
         if "pin" not in cache:
